@@ -12,8 +12,9 @@ Atomic steps = the critical sections between lock operations (aligned with the y
                       G2  READ-lock that cell (blocks while a writer holds it); copy; respond
   size              : SZ  map lock; look up; read-lock the cell; respond its length (one step, map lock held)
   erase             : E1  map lock; remove the entry; respond
-`protocol = .pinned` is the code as found (cell inserted EMPTY and the map lock released BEFORE the cell lock is
-taken: S1 splits into S1a/S1b); `.fixed` is the repaired order.
+`protocol = .pinned` is the code as found: the cell is inserted EMPTY and the map lock released BEFORE the cell
+lock is taken, so a set is  S1a (map: find-or-insert, keep the Arc)  then  S1b (lock the cell, write, unlock,
+respond);  `.fixed` is the repaired order (S1/S2 above).
 -/
 namespace Zarrs.MemConc
 
@@ -21,6 +22,7 @@ inductive Op where
   | set (v : Bytes)
   | setPartial (off : Nat) (v : Bytes)
   | get
+  | getRange (off len : Nat)           -- `get_partial_values_key(key, [FromStart(off, Some(len))])`
   | size
   | erase
 deriving DecidableEq, Repr
@@ -29,6 +31,7 @@ inductive Res where
   | unit
   | bytes (b : Option Bytes)
   | size (n : Option Nat)
+  | err                                -- a ranged read reaching outside the value
 deriving DecidableEq, Repr
 
 inductive Protocol where
@@ -77,6 +80,11 @@ def respond (s : State) (t : Nat) (r : Res) : State :=
   { s with pc := s.pc.set t (s.pc.getD t 0 + 1), ts := s.ts.set t TS.idle,
            out := s.out.set t (s.out.getD t [] ++ [r]) }
 
+/-- the response of a read of a present value -/
+def readRes : Op → Bytes → Res
+  | .getRange off len, b => if off + len ≤ b.length then .bytes (some (slice b off (off + len))) else .err
+  | _, b => .bytes (some b)
+
 def isWrite : Op → Bool
   | .set _ => true
   | .setPartial _ _ => true
@@ -94,7 +102,7 @@ def enabled (pr : Protocol) (ps : Progs) (s : State) (t : Nat) : Bool :=
     else match op with
       | .size => (match s.cur with | some c => cellFree s c | none => true)
       | _ => true                                                              -- G1, E1 only need the map
-  | some _, TS.setGot c => cellFree s c                                        -- S1b: take the write lock
+  | some _, TS.setGot c => cellFree s c                                        -- S1b: lock, write, unlock
   | some _, TS.setHold _ => true                                               -- S2
   | some _, TS.getHold c => cellFree s c                                       -- G2 blocks while write-locked
 
@@ -115,13 +123,17 @@ def step (pr : Protocol) (ps : Progs) (s : State) (t : Nat) : State :=
       | .get => (match s.cur with
           | none => respond s t (.bytes none)
           | some c => { s with ts := s.ts.set t (TS.getHold c) })
+      | .getRange _ _ => (match s.cur with
+          | none => respond s t (.bytes none)
+          | some c => { s with ts := s.ts.set t (TS.getHold c) })
       | .size => respond s t (.size (s.cur.map (fun c => (s.cells.getD c []).length)))
       | .erase => respond { s with cur := none } t .unit
       | _ => s
-  | some _, TS.setGot c => { s with wlock := s.wlock.set c (some t), ts := s.ts.set t (TS.setHold c) }
+  | some op, TS.setGot c =>
+    respond { s with cells := s.cells.set c (applyWrite (s.cells.getD c []) op) } t .unit
   | some op, TS.setHold c =>
     respond { s with cells := s.cells.set c (applyWrite (s.cells.getD c []) op), wlock := s.wlock.set c none } t .unit
-  | some _, TS.getHold c => respond s t (.bytes (some (s.cells.getD c [])))
+  | some op, TS.getHold c => respond s t (readRes op (s.cells.getD c []))
 
 def run (pr : Protocol) (ps : Progs) : State → List Nat → Option State
   | s, [] => some s
@@ -139,6 +151,7 @@ def specStep (a : Option Bytes) : Op → Option Bytes × Res
   | .set v => (some v, .unit)
   | .setPartial off v => (some (specSetPartial (a.getD []) off v), .unit)
   | .get => (a, .bytes a)
+  | .getRange off len => (a, match a with | some b => readRes (.getRange off len) b | none => .bytes none)
   | .size => (a, .size (a.map List.length))
   | .erase => (none, .unit)
 
